@@ -24,7 +24,10 @@ EXPLANATION = (
     "iteration) it belongs to - no row or polynomial is committed / opened without its blinding scalar. "
     "R6f: in Hyrax open every draw that flows into a per-polynomial proof is made inside the per-polynomial loop (one "
     "mask per proof, not one per call). R6g: in the IPA and Marlin committers nothing read from the `rand` field of the "
-    "commitment randomness flows into its `shifted_rand` (the shifted commitment has a blinding of its own). KZG10::commit refuses with MissingRng when hiding is requested without a generator. R12: the hiding polynomial "
+    "commitment randomness flows into its `shifted_rand` (the shifted commitment has a blinding of its own). R1p: in "
+    "the loops of the committers (and of what they call, KZG10::commit included) a variable holding scheme data that "
+    "is carried from one iteration to the next is an accumulator read after the loop - a blinding polynomial drawn "
+    "for one polynomial is never still in place when the next one is committed. KZG10::commit refuses with MissingRng when hiding is requested without a generator. R12: the hiding polynomial "
     "has degree hiding_bound + k with k >= 1 in both definitions. Independence and sufficiency of the randomness and the "
     "group identity 'commitment = plain + blinding' are not decided.")
 RULE = ("instances = draw sites x provenance + committers x {rng reaches result, draws under hiding branch} + MissingRng "
@@ -263,6 +266,23 @@ def run(rep, ctx, tier):
                             loop = bypass_loop_of(bb, i)
                             per_item.append((bid, i, loop, [(bid, o["pl"]["l"]) for o in rv["ops"] if o["k"] in ("copy", "move")]))
             if not per_item:
+                # the loop body may have been made a function: a literal in a helper that is called from inside a
+                # loop is assembled once per iteration of that loop, and one invocation of the helper is the "loop body"
+                for bid in sorted(g.scope):
+                    bb = f.bodies[bid]
+                    if bid == body.id:
+                        continue
+                    lits = [(i, st["rv"]) for i, blk in enumerate(bb.blocks) for st in blk["stmts"]
+                            if st["rv"].get("k") == "agg" and st["rv"].get("adt") == PROOF]
+                    if not lits:
+                        continue
+                    in_loop = any(ci in RNG.cyclic_blocks(f.bodies[cb]) for cb in g.scope for ci, ct in f.bodies[cb].calls()
+                                  if bid in f.call_targets(ct, adt))
+                    if in_loop:
+                        for i, rv in lits:
+                            per_item.append((bid, i, set(range(len(bb.blocks))),
+                                             [(bid, o["pl"]["l"]) for o in rv["ops"] if o["k"] in ("copy", "move")]))
+            if not per_item:
                 rep.add("R6f", "%s:fresh-per-polynomial" % key, False, "no HyraxProof literal inside a loop found in open (fail closed)", body.span)
             stale = None
             for (dbid, dblk, t) in draws:
@@ -328,6 +348,19 @@ def run(rep, ctx, tier):
             else:
                 rep.add("R1", "%s:rng->result" % key, rng_live,
                         "rng parameter %s the returned value" % ("can influence" if rng_live else "cannot influence"), body.span)
+    # R1p: each polynomial of a commit call is committed from a clean slate - a working variable holding scheme data
+    # (the blinding polynomial, the commitment under construction) does not survive into the next polynomial
+    from ..rules import carried as R1P
+    n_loops = n_carried = 0
+    for key, body, adt, roles, optional in anchors(f):
+        if body is not None and key.endswith(".commit") and adt is not None:
+            nl, nc = R1P.run(rep, ctx, key, [body.id], adt, "R1p", stop=tuple(x for x in R1P.STOP if x not in ("commit", "rand")))
+            n_loops += nl
+            n_carried += nc
+    rep.count("R1p loops", n_loops)
+    if n_loops < 3 or n_carried < 4:
+        rep.add("R1p", "per-item-fresh:floor", False, "only %d loops / %d carried variables found in the committers "
+                "(fail closed)" % (n_loops, n_carried), None)
     rep.count("draw_sites", n_draws)
     if n_draws < 6:
         rep.add("R10", "floor", False, "only %d draw sites found in the hiding committers/provers (floor 6; fail closed)" % n_draws, None)
